@@ -306,6 +306,7 @@ func runC10(c *core.Ctx) {
 	joined := make(chan struct{})
 	go func() { wg.Wait(); close(joined) }()
 	deadlocked := false
+	stuckForGood := false
 	func() {
 		last := make([]int64, nworkers)
 		stuck := 0
@@ -344,12 +345,16 @@ func runC10(c *core.Ctx) {
 				c.Violation("deadlock", fmt.Sprintf("no worker made progress for 60 s and two goroutine dumps 10 s apart are identical with every library goroutine parked on a mutex/waitgroup (fs %s, bg worker %v, Close called %v, returned %v)", fsk, bg, closeCalled.Load(), closed.Load()),
 					map[string]interface{}{"hash_seed": seed, "fs": fsk, "config": cfg, "dump": trunc2(d2, 20000)})
 			} else {
-				c.Inconclusive("no progress for 60 s but the goroutine dumps do not show a stable all-parked picture")
+				c.Inconclusive("no progress for 60 s but the goroutine dumps do not show a stable all-parked picture (all parked: %v / %v, first non-parked library goroutine: %q, dumps equal: %v)",
+					parkedOnSync(d1), parkedOnSync(d2), notParked, normalizeDump(d1) == normalizeDump(d2))
 			}
+			// goroutines of this run may be stuck for good: do not run further cases in this process
+			stuckForGood = true
 			return
 		}
 	}()
-	if deadlocked || len(c.Inconclusives()) > 0 {
+	if deadlocked || stuckForGood || len(c.Inconclusives()) > 0 {
+		c.AbortShard()
 		return
 	}
 	fireClose() // in case the workers finished before reaching closeAt (cannot happen: they loop until closed)
@@ -491,11 +496,24 @@ func goroutineDump() string {
 	return string(buf[:n])
 }
 
-var hexAddr = regexp.MustCompile(`0x[0-9a-f]+|\+0x[0-9a-f]+|\d+ minutes|, \d+ minutes`)
+var hexAddr = regexp.MustCompile(`\+?0x[0-9a-f]+|(, )?\d+ minutes|(, )?locked to thread`)
 
-func normalizeDump(d string) string { return hexAddr.ReplaceAllString(d, "") }
+// normalizeDump keeps only the goroutines with a library frame, strips addresses and wait durations and sorts
+// them, so that two dumps of the same parked state compare equal.
+func normalizeDump(d string) string {
+	var gs []string
+	for _, g := range strings.Split(d, "\n\n") {
+		if core.StackHasPogreb(g) {
+			gs = append(gs, hexAddr.ReplaceAllString(g, ""))
+		}
+	}
+	sort.Strings(gs)
+	return strings.Join(gs, "\n\n")
+}
 
 // parkedOnSync reports whether every goroutine with a library frame is parked in a sync primitive.
+var notParked string
+
 func parkedOnSync(d string) bool {
 	any := false
 	for _, g := range strings.Split(d, "\n\n") {
@@ -505,6 +523,7 @@ func parkedOnSync(d string) bool {
 		any = true
 		hdr := strings.SplitN(g, "\n", 2)[0]
 		if !(strings.Contains(hdr, "sync.") || strings.Contains(hdr, "semacquire") || strings.Contains(hdr, "chan receive") || strings.Contains(hdr, "select")) {
+			notParked = hdr
 			return false
 		}
 	}
